@@ -19,6 +19,8 @@ ENVL = z3.Function('ENVL', V, I, V)
 STOPSD = z3.Function('STOPSD', V, V, I, R, B)
 STOPRILL = z3.Function('STOPRILL', V, V, I, R, R, R, B)
 IT = z3.Function('IT', V, I, I, V)          # IT(X, n, k)
+GI = z3.Function('GI', V, I, V)            # component extracted by get_next_imf (function of its input vector)
+GF = z3.Function('GF', V, I, B)            # its continue flag
 TQ = z3.Int('t_lam0')
 
 
@@ -39,13 +41,27 @@ def vscale(c, a):
 
 
 def vreify(a):
-    """column vector (n,1) or vector (n,) -> z3 array"""
+    """column vector (n,1) or vector (n,) -> z3 array in CANONICAL form: zero outside [0, n).
+    (Spec vectors are total maps; making them agree outside the index range lets vector equality mean equality of the n samples.)"""
     ar = getattr(a, 'as_array', None)
     if ar is not None:
         return ar
+    n = a.shape_e[0]
+    # built through npshim.reify1 so that sums / vectors created while the body is evaluated get a different bound-variable name
     if a.ndim == 2:
-        return z3.Lambda([TQ], a.elem(TQ, z3.IntVal(0)))
-    return z3.Lambda([TQ], a.elem(TQ))
+        return npshim.reify1(lambda t: z3.If(z3.And(0 <= t, t < n), a.elem(t, z3.IntVal(0)), z3.RealVal(0)), 'f')
+    return npshim.reify1(lambda t: z3.If(z3.And(0 <= t, t < n), a.elem(t), z3.RealVal(0)), 'f')
+
+
+def canon_axioms(X, n):
+    """convention: every spec vector is zero outside [0, n)"""
+    x = z3.Const('cx', V)
+    t = z3.Int('ct')
+    out = z3.Not(z3.And(0 <= t, t < n))
+    ax = [z3.ForAll([t], z3.Implies(out, X[t] == 0), patterns=[X[t]])]
+    for F in (ENVU, ENVL, GI):
+        ax.append(z3.ForAll([x, t], z3.Implies(out, F(x, n)[t] == 0), patterns=[F(x, n)[t]]))
+    return ax
 
 
 def vec_of(arr, n):
@@ -63,8 +79,9 @@ def col_of(arr, n):
 
 def it_axioms(X, n, step):
     k = z3.Int('itk')
-    return [IT(X, n, 0) == X,
-            z3.ForAll([k], z3.Implies(k >= 0, IT(X, n, k + 1) == vsub(IT(X, n, k), vscale(step, mean_env(IT(X, n, k), n)))), patterns=[IT(X, n, k + 1)])]
+    return canon_axioms(X, n) + [IT(X, n, 0) == X,
+            z3.ForAll([k], z3.Implies(k >= 0, IT(X, n, k + 1) == vsub(IT(X, n, k), vscale(step, mean_env(IT(X, n, k), n)))), patterns=[IT(X, n, k + 1)]),
+            IT(X, n, 1) == vsub(IT(X, n, 0), vscale(step, mean_env(IT(X, n, 0), n)))]
 
 
 def interp_envelope_stub(X, mode='upper', interp_method='splrep', extrema_opts=None, ret_extrema=False):
@@ -87,3 +104,31 @@ def fires(rule, h, n, k, params):
     if rule == 'rilling':
         return STOPRILL(ENVU(h, n), ENVL(h, n), n, params['sd1'], params['sd2'], params['tol'])
     return k == params['max_iters']
+
+
+# ---- single-IMF extraction as a function of its input (get_next_imf is pure: C19 / effects), used modularly by the sift variants
+RES = z3.Function('RES', V, I, I, V)   # RES(X, n, k) = X - first k components
+COMP = z3.Function('COMP', V, I, I, V)
+
+
+def g_axioms(X, n):
+    """C04 contract of get_next_imf without an energy threshold, as far as the sift needs it, and the component / residual recursion"""
+    x = z3.Const('gx', V)
+    k = z3.Int('gk')
+    return canon_axioms(X, n) + [z3.ForAll([x], z3.Implies(z3.Not(GF(x, n)), z3.And(GI(x, n) == x, z3.Not(has(x, n)))), patterns=[GF(x, n)]),
+            RES(X, n, 0) == X,
+            z3.ForAll([k], z3.Implies(k >= 0, COMP(X, n, k) == GI(RES(X, n, k), n)), patterns=[COMP(X, n, k)]),
+            z3.ForAll([k], z3.Implies(k >= 0, RES(X, n, k + 1) == vsub(RES(X, n, k), COMP(X, n, k))), patterns=[RES(X, n, k + 1)]),
+            # ground instances (E-matching cannot invert k+1 = 1 once the solver has substituted a concrete layer)
+            COMP(X, n, 0) == GI(RES(X, n, 0), n), RES(X, n, 1) == vsub(RES(X, n, 0), COMP(X, n, 0)),
+            COMP(X, n, 1) == GI(RES(X, n, 1), n), RES(X, n, 2) == vsub(RES(X, n, 1), COMP(X, n, 1))]
+
+
+def get_next_imf_stub(X, env_step_size=1, max_iters=1000, energy_thresh=None, stop_method='sd', sd_thresh=.1, rilling_thresh=(0.05, 0.5, 0.05),
+                      envelope_opts=None, extrema_opts=None):
+    c = core.C()
+    c.oblige('get_next_imf:requires-no-energy-threshold-in-this-unit', z3.BoolVal(energy_thresh is None), 'pre')
+    x = vreify(X)
+    n = X.shape_e[0]
+    c.ghost['n_gni'] = c.ghost.get('n_gni', 0) + 1
+    return col_of(GI(x, n), n), SBool(GF(x, n))
